@@ -94,6 +94,9 @@ fn c09_features(p: &Program, module: &str) -> Vec<&'static str> {
     if p.rules.iter().any(|r| matches!(r.body.first(), Some(Stmt::Then(_)))) {
         f.push("empty_premise");
     }
+    if p.types.iter().any(|t| matches!(t.kind, TypeKind::Model(_))) {
+        f.push("model_declaration");
+    }
     f
 }
 
@@ -138,6 +141,32 @@ pub fn c09_one(p: &Program, source: &str) -> (Result<(), String>, Vec<&'static s
     (Ok(()), feats, accepted)
 }
 
+/// C09 for a bare source text (no signature known to the harness): the module-mode output must
+/// compile as a library.
+pub fn c09_source_only(source: &str) -> Result<(), String> {
+    let s = Scratch::new("c09src");
+    let src = s.join("src");
+    std::fs::create_dir_all(&src).unwrap();
+    std::fs::write(src.join("thy.eql"), source).unwrap();
+    let out = s.join("out");
+    let r = pipeline::run_cli(&CliOpts { src: &src, out: &out, component_out: None, rustc_path: None, threads: None, envs: vec![], cwd: None });
+    if r.rejected() || r.out.timed_out {
+        return Ok(());
+    }
+    if !r.accepted() {
+        return Err(format!("compiler crashed (exit {:?})", r.out.code));
+    }
+    let main = format!("#![allow(warnings)]\nmod th {{ include!({:?}); }}\n", out.join("thy.eql.rs").to_str().unwrap());
+    std::fs::write(s.join("lib.rs"), main.replace("\\n", "\n")).unwrap();
+    let mut cmd = std::process::Command::new(pipeline::rustc());
+    cmd.arg(s.join("lib.rs")).args(["--edition=2024", "--crate-type=rlib", "--crate-name=thy", "--cap-lints=allow", "-C", "opt-level=0"]).arg("--extern").arg(format!("eqlog_runtime={}", pipeline::runtime_rlib().display())).arg("-o").arg(s.join("libthy.rlib"));
+    let o = util::run(&mut cmd, None, Duration::from_secs(300), 0).map_err(|e| e.to_string())?;
+    if !o.ok() {
+        return Err(format!("Module build: rustc rejects the generated code: {}", o.stderr_str().lines().find(|l| l.starts_with("error")).unwrap_or("")));
+    }
+    Ok(())
+}
+
 pub fn run_c09(tier: &str, seed: u64) -> campaign::CampaignResult {
     let start = Instant::now();
     let np = env_usize("EQV_NPROG", if tier == "thorough" { 1500 } else { 40 });
@@ -145,6 +174,16 @@ pub fn run_c09(tier: &str, seed: u64) -> campaign::CampaignResult {
     let mut ev = Evidence::new("C09", tier, seed, "exploration");
     let profiles: Vec<String> = vec!["wide".into(), "wide".into(), "free".into(), "with_enums".into()];
     let programs = draw_programs(seed, &profiles, np);
+    let mut programs = programs;
+    // programs with a model declaration (member predicates, morphisms), see C17
+    let n_model = (np / 4).max(2);
+    for (i, tape) in pt::draw_tapes(seed ^ 0xC09, n_model, 200).into_iter().enumerate() {
+        let program = crate::c17::gen_model_program(&tape);
+        let source = print::print(&program).text;
+        let mut profile = crate::gen::Profile::free();
+        profile.name = "model".into();
+        programs.push(ProgramCase { index: np + i, profile, program, source });
+    }
     let results: Vec<(Result<(), String>, Vec<&'static str>, bool)> = programs.par_iter().map(|pc| c09_one(&pc.program, &pc.source)).collect();
     let mut violations = 0;
     for (pc, (res, feats, accepted)) in programs.iter().zip(results.iter()) {
@@ -172,7 +211,7 @@ pub fn run_c09(tier: &str, seed: u64) -> campaign::CampaignResult {
         }
     }
     ev.extra.insert("programs".into(), json!(ev.evaluations));
-    ev.rule = "programs from the typed generator (profile `wide`: arities up to 9, constants, nullary predicates, enums, plus the other profiles), each compiled by the repository CLI in module mode and in component mode (real rustc per rule) and linked into a driver that runs an empty history; non-trivial = accepted and has one of: relation with >= 5 columns, diagonal index, >= 3 index orders for one relation, enum match, rule with empty premise; distinct by source hash".into();
+    ev.rule = "programs from the typed generator (profile `wide`: arities up to 9, constants, nullary predicates, enums, plus the other profiles), each compiled by the repository CLI in module mode and in component mode (real rustc per rule) and linked into a driver that runs an empty history; non-trivial = accepted and has one of: relation with >= 5 columns, diagonal index, >= 3 index orders for one relation, enum match, rule with empty premise, model declaration; distinct by source hash".into();
     ev.assumptions = vec!["identifiers come from pools that avoid Rust keywords and names the generator emits".into()];
     ev.violations = violations as u64;
     ev.wall_s = start.elapsed().as_secs_f64();
@@ -705,10 +744,10 @@ pub fn run_c20(tier: &str, seed: u64) -> campaign::CampaignResult {
 
 pub fn replay_prog(rep: &ProgReplay) -> Result<Option<String>, String> {
     match rep.kind.as_str() {
-        "c09" => {
-            let p = rep.program.as_ref().ok_or("no program")?;
-            Ok(c09_one(p, &rep.source).0.err())
-        }
+        "c09" => match rep.program.as_ref() {
+            Some(p) => Ok(c09_one(p, &rep.source).0.err()),
+            None => Ok(c09_source_only(&rep.source).err()),
+        },
         "c13" => {
             let th = rep.detail.get("theory").and_then(|v| v.as_str()).unwrap_or(THEORY).to_string();
             match c13_one(&rep.source, &th) {
